@@ -370,13 +370,13 @@ def mse_loss_backward(grad: np.ndarray, y_pred: np.ndarray, y_true: np.ndarray) 
     
     
 def nll_loss_forward(y_pred: np.ndarray, y_true: np.ndarray) -> np.ndarray:
-    loss = -y_pred[range(len(y_pred)), y_true].reshape((-1, 1))
+    loss = -y_pred[range(len(y_pred)), y_true]
     return loss
 
 def nll_loss_backward(grad: np.ndarray, y_pred: np.ndarray, y_true: np.ndarray) -> np.ndarray:
     loss_grad = np.zeros(y_pred.shape)
     loss_grad[range(len(y_pred)), y_true] = -1.0
-    return grad * loss_grad
+    return grad.reshape((-1, 1)) * loss_grad
 
 
 def bce_loss_forward(y_pred: np.ndarray, y_true: np.ndarray) -> np.ndarray:
@@ -415,7 +415,7 @@ def cross_entropy_loss_backward(grad: np.ndarray, y_pred: np.ndarray, y_true: np
     dlogits = softmax_forward(y_pred, 1)
     n = y_pred.shape[0]
     dlogits[range(n), y_true] -= 1
-    return  dlogits * grad
+    return  dlogits * grad.reshape((-1, 1))
     
 # ************************
 # ******* Pool ops *******
